@@ -150,6 +150,11 @@ func cmdCheck(args []string) int {
 					continue
 				}
 				cfg2 := *h
+				// a cross-check never overrules the primary; it gets a bounded amount of time
+				cfg2.TimeoutS = int(4*res.Wall.Seconds()) + 120
+				if cfg2.TimeoutS > 900 {
+					cfg2.TimeoutS = 900
+				}
 				r2 := Explore(P, &cfg2, *workers, sk, 120000)
 				note := fmt.Sprintf("%s cross-check %s: paths %d/%d obligations %d/%d violations %d/%d", h.Entry, sk, r2.Paths, res.Paths, r2.Discharged, res.Discharged, len(r2.Violations), len(res.Violations))
 				crossNotes = append(crossNotes, note)
